@@ -297,7 +297,7 @@ impl SimProp for C15 {
             property: "C15",
             engine: "simsut",
             level: "exploration",
-            rule: "case = trace of 1..300 packets x delay x optional pps bottleneck (1..10000) x 0..3 client and 0..2 server machines from simulator-scaled families (padding with all flag combinations, blocking, timers, cancels, counters, signals, limits; timeouts/durations from 0 to 20 ms and wild distributions) x fractions x seed x both stop modes, unfiltered output; oracle: trace time-ordered; per direction and kind the k-th earliest receive is at least one delay after the k-th earliest send and receives never outnumber sends (a perfect causal matching exists iff this holds); normal sends per side <= its share of the input trace, with equality when the run ended by itself; distinct = hash of the returned (event kind, side) sequence; non-trivial = at least one padding packet crossed the network or blocking occurred".into(),
+            rule: "case = trace of 1..300 packets x delay x optional pps bottleneck (1..10000) x 0..3 client and 0..2 server machines from simulator-scaled families (padding with all flag combinations, blocking, timers, cancels, counters, signals, limits; timeouts/durations from 0 to 20 ms and wild distributions) x fractions x seed x both stop modes, unfiltered output; oracle: trace time-ordered; per direction and kind the k-th earliest receive is at least one delay after the k-th earliest send and receives never outnumber sends (a perfect causal matching exists iff this holds); normal sends per side <= its share of the input trace, with equality when the run ended by itself; every NormalRecv / PaddingRecv matches a tunnel-received packet of that kind at that instant; distinct = hash of the returned (event kind, side) sequence; non-trivial = at least one padding packet crossed the network or blocking occurred".into(),
             assumptions: vec![
                 "'ended by itself' = fewer events than max_sim_iterations and than max_trace_length (if set)".into(),
                 "message loss on the simulated network is not injected: the repository's network model has none, conservation is a property of that model".into(),
@@ -385,6 +385,41 @@ impl SimProp for C15 {
                             format!(
                                 "{who}: the {k}-th earliest receive is at {rt} but the {k}-th earliest send at {} + delay {d}",
                                 s[k]
+                            ),
+                        ));
+                        break;
+                    }
+                }
+            }
+        }
+        // at the receiver: every NormalRecv / PaddingRecv is the unwrapping of a
+        // tunnel-received packet of that kind at that instant on that side (normal
+        // packets are never created, padding never turns into payload)
+        for client in [true, false] {
+            for (kind, padding, name) in [(0u8, false, "NormalRecv"), (1u8, true, "PaddingRecv")] {
+                let mut got: Vec<i128> = out.trace.iter().filter(|e| e.kind == kind && e.client == client).map(|e| e.t).collect();
+                let mut src: Vec<i128> = out
+                    .trace
+                    .iter()
+                    .filter(|e| e.kind == 2 && e.client == client && e.padding == padding)
+                    .map(|e| e.t)
+                    .collect();
+                got.sort();
+                src.sort();
+                let mut j = 0;
+                for t in &got {
+                    while j < src.len() && src[j] < *t {
+                        j += 1;
+                    }
+                    if j < src.len() && src[j] == *t {
+                        j += 1;
+                    } else {
+                        v.push((
+                            "recv-kind-mismatch".into(),
+                            format!(
+                                "{}: {name} at {t} without a tunnel-received {} packet at that instant",
+                                if client { "client" } else { "server" },
+                                if padding { "padding" } else { "normal" }
                             ),
                         ));
                         break;
